@@ -19,10 +19,16 @@ pub fn generate_qa_report(
 
     qa_report.push_str((overview_section + "\n").as_str());
 
+    //Render the patterns in declaration order and the files in sorted order,
+    //the report must not depend on hash map iteration order or on file discovery order
+    let mut qa_items: Vec<_> = qa_items.into_iter().collect();
+    qa_items.sort_by_key(|(qa, _)| *qa as usize);
+
     for item in qa_items {
         if item.1.len() > 0 {
             let qa_target = item.0;
-            let matches = item.1;
+            let mut matches = item.1;
+            matches.sort();
 
             let report_section = get_qa_report_section(qa_target);
 
